@@ -285,3 +285,223 @@ def lemmas():
                   patterns=[h[1][t][i]]),
     ]
     return [Obl("C08/lemma/semh-frame/induction-step", hyp, semh(*h, t, K) == semh(*g, t, K), "lemma")]
+
+
+# ================================================================ (2) GPRWalker, GPR.update_genes, GPR.genes
+# names(h, t): the set of Name identifiers occurring in the tree t, by structural recursion:
+#   Name: {id};  BoolOp: the union over the children;  root: empty without body, else names(body).
+# The walker's contract (for every kind of node): gene_set afterwards = gene_set before  u  names(h, t); the tree is not written.
+# GPR.update_genes / GPR.genes: the name cache / the returned set is names(h, self) when the rule has a body, empty otherwise -
+# this is the ghost `rule_names(gpr)` of c02_update_genes (used there under `body is not None`), now with a definition.
+# The GPR object's private cache `_genes` (a set of strings; the heap field `_genes` is the reaction's set of Gene objects) is the
+# heap field `gpr_genes`.
+names = z3.Function("tree_names", RefInt, RefSeq, RefRef, Ref, IdSet)
+names_wit = z3.Function("tree_names_wit", RefInt, RefSeq, RefRef, Ref, Id, z3.IntSort())
+REG.fields.update({"gpr_genes": "set:id"})
+REG.classes.setdefault("GPRWalker", ["NodeVisitor"])
+EMPTY = z3.K(Id, z3.BoolVal(False))
+
+
+def names_axioms(E, st):
+    return names_axioms_arr(H(E, st, "ast_tag"), H(E, st, "id"))
+
+
+def names_axioms_arr(tg, nid):
+    VN, VS, BD = z3.Const("nVN", RefInt), z3.Const("nVS", RefSeq), z3.Const("nBD", RefRef)
+    x, k, i = z3.Const("nx", Ref), z3.Const("nk", Id), z3.Int("ni")
+    hv = [VN, VS, BD]
+    N = lambda x_: names(VN, VS, BD, x_)  # noqa
+    n, kid = VN[x], (lambda j: VS[x][j])
+    is_root = z3.Or(tg[x] == T_EXPRESSION, tg[x] == T_GPR)
+    w = names_wit(VN, VS, BD, x, k)
+    return [
+        z3.ForAll(hv + [x, k], z3.Implies(tg[x] == T_NAME, N(x)[k] == (k == nid[x])), patterns=[N(x)[k]]),
+        # BoolOp: k is a name of the node exactly when it is a name of some child (=> with a witness position, <= for every child)
+        z3.ForAll(hv + [x, k], z3.Implies(z3.And(tg[x] == T_BOOLOP, N(x)[k]), z3.And(0 <= w, w < n, N(kid(w))[k])), patterns=[N(x)[k]]),
+        z3.ForAll(hv + [x, k, i], z3.Implies(z3.And(tg[x] == T_BOOLOP, 0 <= i, i < n, N(kid(i))[k]), N(x)[k]),
+                  patterns=[z3.MultiPattern(N(kid(i))[k], N(x))]),
+        z3.ForAll(hv + [x, k], z3.Implies(z3.And(is_root, BD[x] == NULL), z3.Not(N(x)[k])), patterns=[N(x)[k]]),
+        z3.ForAll(hv + [x, k], z3.Implies(z3.And(is_root, BD[x] != NULL), N(x)[k] == N(BD[x])[k]), patterns=[N(x)[k]]),
+    ]
+
+
+def _walker_t():
+    return TObj("GPRWalker", {"gene_set": TSet("id")})
+
+
+WK_PARAMS = [("self", _walker_t()), ("node", TRef("AstNode"))]
+
+
+def gene_set_obj(E, st=None):
+    st = st or E.s0
+    return st.objs[E["self"].oid]["attr:gene_set"]
+
+
+def gene_set(E, st):
+    rec = st.objs[gene_set_obj(E, st).oid]
+    return EMPTY if rec.get("lazy") else rec["dom"]
+
+
+def wk_spec(h, G0, G1, t):
+    k = qv("wk", Id)
+    return FA([k], G1[k] == z3.Or(G0[k], names(*h, t)[k]), patterns=[G1[k]])
+
+
+def _wk_post(E):
+    return wk_spec(heap3(E, E.s0), gene_set(E, E.s0), gene_set(E, E.s1), E["node"].t)
+
+
+def _wk_axioms(E):
+    return tree_axioms(E, E.s0) + names_axioms(E, E.s0)
+
+
+WK_MOD = lambda E: [("set", gene_set_obj(E))]  # noqa
+
+
+def _wk_inv(E, Lc):
+    """`for val in node.values: self.visit(val)` (after generic_visit has already visited every child): the names of the node stay
+    collected, nothing else is added"""
+    return z3.And(wk_spec(heap3(E, E.s0), gene_set(E, E.s0), gene_set(E, Lc.st), E["node"].t), Lc.n == H(E, E.s0, "values_n")[E["node"].t])
+
+
+_wname = Case("Name", requires=lambda E: _tag_is(E, T_NAME), ensures=_wk_post)
+_wbool = Case("BoolOp", requires=lambda E: _tag_is(E, T_BOOLOP), ensures=_wk_post)
+_wname.domain, _wbool.domain = _wname.requires, _wbool.requires
+
+REG.add(Contract(MG, "GPRWalker.visit_Name", "C08", WK_PARAMS, [_wname], pre=_rm_pre, modifies=WK_MOD, axioms=_wk_axioms,
+                 key="GPRWalker.visit_Name", props=["C08", "C02"]))
+REG.add(Contract(MG, "GPRWalker.visit_BoolOp", "C08", WK_PARAMS, [_wbool], pre=_rm_pre, modifies=WK_MOD, axioms=_wk_axioms,
+                 loops={0: LoopSpec(_wk_inv, lambda E, Lc: WK_MOD(E))}, key="GPRWalker.visit_BoolOp", props=["C08", "C02"]))
+
+
+def _wgv_post(E):
+    """NodeVisitor.generic_visit on a BoolOp node: `op` (an And / Or node: no fields) and every child have been visited, in order"""
+    h = heap3(E, E.s0)
+    t = E["node"].t
+    n, kids = h[0][t], h[1][t]
+    G0, G1 = gene_set(E, E.s0), gene_set(E, E.s1)
+    k, i = qv("vk", Id), qv("vi")
+    wit = fresh("gv_wit", z3.ArraySort(Id, z3.IntSort()))
+    return z3.And(FA([k], z3.Implies(G0[k], G1[k]), patterns=[G0[k]]),
+                  FA([k, i], z3.Implies(z3.And(0 <= i, i < n, names(*h, kids[i])[k]), G1[k]), patterns=[names(*h, kids[i])[k]]),
+                  FA([k], z3.Implies(G1[k], z3.Or(G0[k], z3.And(0 <= wit[k], wit[k] < n, names(*h, kids[wit[k]])[k]))), patterns=[G1[k]]))
+
+
+REG.add(Contract(MG, "GPRWalker.generic_visit", "C08", WK_PARAMS,
+                 [Case("BoolOp", requires=lambda E: _tag_is(E, T_BOOLOP), ensures=_wgv_post)],
+                 pre=_rm_pre, modifies=WK_MOD, axioms=_wk_axioms, assumed=True, key="GPRWalker.generic_visit",
+                 note="ast.NodeVisitor.generic_visit on a BoolOp node: self.visit is called for `op` (no effect) and for every child, in "
+                      "order; INDUCTION HYPOTHESIS (the contract of GPRWalker.visit) for each child, folded over the child list: "
+                      "gene_set afterwards = gene_set before u the names of all children; the tree is not written"))
+
+
+def _wroot_req(E):
+    t = E["node"].t
+    tg = H(E, E.s0, "ast_tag")
+    return z3.And(z3.Or(tg[t] == T_EXPRESSION, tg[t] == T_GPR), H(E, E.s0, "body")[t] != NULL)
+
+
+REG.add(Contract(MG, "GPRWalker.visit", "C08", WK_PARAMS,
+                 [Case("Name", requires=lambda E: _tag_is(E, T_NAME), ensures=_wk_post),
+                  Case("BoolOp", requires=lambda E: _tag_is(E, T_BOOLOP), ensures=_wk_post),
+                  Case("root", requires=_wroot_req, ensures=_wk_post)],
+                 pre=_rm_pre, modifies=WK_MOD, axioms=_wk_axioms, assumed=True, key="GPRWalker.visit",
+                 note="ast.NodeVisitor.visit: dispatch on the class name of the node; cases Name / BoolOp ARE the proved contracts of "
+                      "visit_Name / visit_BoolOp; case root (GPR / Expression with a body, no visit_GPR method): generic_visit visits "
+                      "the body - the contract for the body, names(root) = names(body)"))
+
+
+def _walker_new(eng, st, E):
+    from pyvc.state import alloc_obj
+    st, s = alloc_set(st, "id", dom=EMPTY)
+    return alloc_obj(st, "GPRWalker", {"attr:gene_set": s})
+
+
+REG.add(Contract(MG, "GPRWalker.__init__", "C08", [("self", TNone())], [Case("new")], assumed=True, key="GPRWalker.__init__",
+                 result=_walker_new, note="GPRWalker(): a new visitor whose gene_set is a new empty set (two-line constructor; "
+                                          "super().__init__ of ast.NodeVisitor does nothing)"))
+
+
+# ---- hooks: the GPR object's private name cache, deepcopy of a set of strings
+def gpr_getattr_hook(eng, st, v, name):
+    if isinstance(v, VRef) and v.cls == "GPR" and name == "_genes":
+        st2, sv = alloc_set(st, "id", dom=z3.Select(eng.heap_arr(st, "gpr_genes"), v.t))
+        return [("ok", st2, sv)]          # a snapshot: the functions below only read it (frozenset(self._genes))
+    return None
+
+
+def gpr_setattr_hook(eng, st, v, name, val):
+    if isinstance(v, VRef) and v.cls == "GPR" and name == "_genes":
+        if not (isinstance(val, VObj) and val.kind == "set"):
+            raise Unsupported("GPR._genes assigned something that is not a set")
+        rec = st.objs[val.oid]
+        if not rec.get("lazy") and rec["kkind"] != "id":
+            raise Unsupported("GPR._genes assigned a set of non-strings")
+        dom = EMPTY if rec.get("lazy") else rec["dom"]
+        return [("ok", st.setheap("gpr_genes", z3.Store(eng.heap_arr(st, "gpr_genes"), v.t, dom)), NONE)]
+    return None
+
+
+def global_hook(eng, name):
+    if name == "deepcopy":
+        return VFunc("abstract", "deepcopy")
+    return None
+
+
+def call_abstract_hook(eng, st, f, pos, kw):
+    if f.a == "deepcopy" and len(pos) == 1 and not kw and isinstance(pos[0], VObj) and pos[0].kind == "set":
+        # ASSUMED copy.deepcopy of a set of strings: a new set with the same members
+        rec = st.objs[pos[0].oid]
+        if rec.get("lazy") or rec["kkind"] != "id":
+            raise Unsupported("deepcopy of a set that is not a set of strings")
+        st2, s = alloc_set(st, "id", dom=rec["dom"])
+        return [("ok", st2, s)]
+    raise Unsupported(f"abstract call {f.a}")
+
+
+HOOKS_WK = chain_hooks(HOOKS_RM, {"getattr": gpr_getattr_hook, "setattr": gpr_setattr_hook, "global": global_hook,
+                                  "call_abstract": call_abstract_hook})
+HOOKS = HOOKS_WK
+
+
+# ---- GPR.update_genes, GPR.genes
+def rule_names_of(E, st, g):
+    """the gene names of the rule g: names of the tree when it has a body, none otherwise"""
+    return z3.If(H(E, st, "body")[g] != NULL, names(*heap3(E, st), g), EMPTY)
+
+
+def _gpr_pre(E):
+    g = E["self"].t
+    return z3.And(wfh(*heap3(E, E.s0), g), H(E, E.s0, "ast_tag")[g] == T_GPR)
+
+
+def _cache_is_names(E):
+    g = E["self"].t
+    c0, c1 = H(E, E.s0, "gpr_genes"), H(E, E.s1, "gpr_genes")
+    k, x = qv("uk", Id), qv("ux", Ref)
+    want = rule_names_of(E, E.s0, g)
+    return z3.And(FA([k], c1[g][k] == want[k], patterns=[c1[g][k]]),
+                  FA([x], z3.Implies(x != g, c1[x] == c0[x]), patterns=[c1[x]]))
+
+
+REG.add(Contract(MG, "GPR.update_genes", "C08", [("self", TRef("GPR"))], [Case("any", ensures=_cache_is_names)], pre=_gpr_pre,
+                 modifies=lambda E: [("heap", "gpr_genes")], axioms=_wk_axioms, key="GPR.update_genes", props=["C08", "C02"]))
+
+
+def _genes_result(eng, st, E):
+    return alloc_set(st, "id", base="genes_res")
+
+
+def _genes_post(E):
+    k = qv("rk", Id)
+    rec = E.s1.objs[E.res.oid]
+    dom = EMPTY if rec.get("lazy") else rec["dom"]
+    want = rule_names_of(E, E.s0, E["self"].t)
+    return z3.And(FA([k], dom[k] == want[k], patterns=[dom[k]]), _cache_is_names(E))
+
+
+REG.add(Contract(MG, "GPR.genes@getter", "C08", [("self", TRef("GPR"))], [Case("any", ensures=_genes_post)], pre=_gpr_pre,
+                 modifies=lambda E: [("heap", "gpr_genes")], axioms=_wk_axioms, key="GPR.genes@getter/proved", result=_genes_result,
+                 props=["C08", "C02"],
+                 note="second contract of the getter (c02_update_genes assumes `GPR.genes@getter`: ghost rule_names): the returned set "
+                      "is names(tree) when the rule has a body - the definition of that ghost"))
